@@ -29,7 +29,7 @@ func init() {
 			"connection is read by prefetch under a read deadline) with unlimited data ready at the client. The scripted client connection stamps the entry of the first underlying read (t0) and the return of " +
 			"every read (tau_i, cumulative bytes C_i). oracle (one-sided, sound under any load): with t0 = span entry + latency (no token can be taken earlier), C_i <= burst + rate*(tau_i - t0) + 1 per connection; for the total limiter the same on the merged " +
 			"stream of all connections; t0 - (span entry) >= latency; bytes the sink read are exactly the prefix of the client's stream that was pulled. non-trivial = >=3 reads observed; " +
-			"distinct = hash(all run parameters)",
+			"distinct = hash(all run parameters). storm rounds: eight connections with a full burst ready enter a full total limiter together; one burst (+ rate x T) may be read.",
 		Assumptions: []string{
 			"no matcher precedes the handler, so every underlying read is a throttled read",
 			"observer clock is read after each read returns, so delays can only hide violations",
@@ -37,9 +37,11 @@ func init() {
 		MinEvals: 20,
 		Plan: func(tier string) []fw.ChildSpec {
 			if tier == "thorough" {
-				return []fw.ChildSpec{{Name: "timed", Mode: "timed", Shards: 8, Timeout: 30 * time.Minute}}
+				return []fw.ChildSpec{{Name: "timed", Mode: "timed", Shards: 8, Timeout: 30 * time.Minute},
+					{Name: "storm", Mode: "storm", Shards: 2, Timeout: 30 * time.Minute}}
 			}
-			return []fw.ChildSpec{{Name: "timed", Mode: "timed", Shards: 4, Timeout: 8 * time.Minute}}
+			return []fw.ChildSpec{{Name: "timed", Mode: "timed", Shards: 4, Timeout: 8 * time.Minute},
+				{Name: "storm", Mode: "storm", Shards: 1, Timeout: 8 * time.Minute}}
 		},
 		Run:    run,
 		Replay: replay,
@@ -155,6 +157,10 @@ func genRun(seed int64, i int) *Run {
 
 func run(c *fw.Ctx) {
 	hmods.Quiet(c.OutDir + "/caddyhome")
+	if c.Mode == "storm" {
+		runStorm(c)
+		return
+	}
 	n := c.Pick(72, 480)
 	var mine []*Run
 	for i := 0; i < n; i++ {
